@@ -26,3 +26,7 @@ Definition run_iter_rd (start capacity low_mark : N) (data sched : list N) : res
    next-marker test: the look-ahead that makes a parse result final *)
 Definition MAX_FRAME : N := 65551.
 Definition LOOKAHEAD : N := MAX_FRAME + 4.
+
+(* what a drained iterator delivered: the messages and the final counters / latches (the reader is dropped) *)
+Definition iter_result {R} (x : res (list msg * ist * R)) : res (list msg * ist) :=
+  match x with Ok (ms, st, _) => Ok (ms, st) | Panic s => Panic s | OutOfFuel => OutOfFuel end.
